@@ -509,48 +509,83 @@ def ok_return_reachable(body, starts, avoid_blocks=(), avoid_edges=()):
 
 def threaded_successors(body):
     """succ function with materialised-bool joins threaded: a block P that assigns `_b = const true|false`
-    and flows (through goto-only blocks) into J: `switchInt(move _b)` is redirected to J's matching target.
-    Returns dict bb -> list of successors (only for blocks that changed; others use body.succ)."""
+    and flows (through goto-only blocks) into J: `[_t = Not(_b);] switchInt(move _b|_t)` is redirected to J's
+    matching target.  Returns dict bb -> list of successors (only for blocks that changed)."""
     if hasattr(body, '_threaded'):
         return body._threaded
     red = {}
-    # find switch blocks on a bare local whose defs are all const bool assigns
+    info = {}   # j -> {'local': b, 'threaded_defs': set(def blocks), 'all_const_defs': n, 'nonconst_defs': n}
     for j, blk in enumerate(body.blocks):
         t = blk['t']
-        if t['k'] != 'switch':
+        if t['k'] != 'switch' or t.get('onty') != 'bool':
             continue
         l = _op_local(t['on'])
         if l is None or t['on']['pl'].get('p'):
             continue
-        if any('rv' in s for s in blk['s']):
-            # allow a single copy  _c = move _b  handled below
-            pass
-        defs = body.defs.get(l, [])
-        if not defs:
+        # resolve pure copies / negations inside J
+        neg = False
+        pure = True
+        local_defs_in_j = {}
+        for s in blk['s']:
+            if 'rv' in s:
+                if s['pl'].get('p'):
+                    pure = False
+                    break
+                local_defs_in_j[s['pl']['l']] = s['rv']
+        if not pure:
             continue
+        cur_l = l
+        used = set()
+        for _ in range(4):
+            rv = local_defs_in_j.get(cur_l)
+            if rv is None:
+                break
+            used.add(cur_l)
+            if rv['k'] == 'un' and rv['op'] == 'Not' and _op_local(rv['a']) is not None and not rv['a']['pl'].get('p'):
+                neg = not neg
+                cur_l = _op_local(rv['a'])
+            elif rv['k'] == 'use' and _op_local(rv['a']) is not None and not rv['a']['pl'].get('p'):
+                cur_l = _op_local(rv['a'])
+            else:
+                cur_l = None
+                break
+        if cur_l is None or set(local_defs_in_j) - used:
+            continue
+        join = j
+        # `ensure!(c)` = `if anyhow::__private::not(c)`: the negation is a call block N in front of J
+        dj = body.defs.get(cur_l, [])
+        if len(dj) == 1 and dj[0][2] == 'call':
+            nc = dj[0][3]
+            if (nc.is_('anyhow::__private::not') and nc.to == j and len(nc.args) == 1
+                    and _op_local(nc.args[0]) is not None and not nc.args[0]['pl'].get('p')
+                    and not any('rv' in s_ for s_ in body.blocks[nc.bb]['s'])):
+                cur_l = _op_local(nc.args[0])
+                neg = not neg
+                join = nc.bb
+        defs = body.defs.get(cur_l, [])
         const_defs = []
+        nonconst = 0
         for (bb, idx, kind, payload) in defs:
-            if kind != 'assign':
-                continue
-            rv = payload['rv']
-            if rv['k'] == 'use' and rv['a'].get('k') == 'c' and rv['a'].get('int') in (0, 1) and rv['a'].get('ty') == 'bool':
-                const_defs.append((bb, idx, rv['a']['int']))
+            if kind == 'assign':
+                rv = payload['rv']
+                if rv['k'] == 'use' and rv['a'].get('k') == 'c' and rv['a'].get('int') in (0, 1) and rv['a'].get('ty') == 'bool':
+                    const_defs.append((bb, idx, rv['a']['int']))
+                    continue
+            nonconst += 1
         if not const_defs:
             continue
         tmap = dict((v, tg) for v, tg in t['tg'])
+        threaded = set()
         for (bb, idx, val) in const_defs:
-            # path from bb to j must be goto-only and assign nothing else to l after idx
             cur = bb
             path_ok = False
             hops = 0
             while hops < 6:
                 ss = body.succ(cur)
-                if len(ss) != 1:
-                    break
-                if body.blocks[cur]['t']['k'] not in ('goto', 'falseedge', 'drop'):
+                if len(ss) != 1 or body.blocks[cur]['t']['k'] not in ('goto', 'falseedge', 'drop'):
                     break
                 nxt = ss[0]
-                if nxt == j:
+                if nxt == join:
                     path_ok = True
                     break
                 if any('rv' in s for s in body.blocks[nxt]['s']):
@@ -559,13 +594,14 @@ def threaded_successors(body):
                 hops += 1
             if not path_ok:
                 continue
-            if any('rv' in s for s in body.blocks[j]['s']):
-                continue
-            target = tmap.get(val, t['else'])
-            # redirect the edge cur -> j to cur -> target
-            red.setdefault(cur, [])
-            red[cur] = [target if s == j else s for s in body.succ(cur)]
+            v = val ^ 1 if neg else val
+            target = tmap.get(v, t['else'])
+            red[cur] = [target if s == join else s for s in (red.get(cur) or body.succ(cur))]
+            threaded.add(bb)
+        info[j] = {'local': cur_l, 'threaded': threaded, 'const_defs': len(const_defs), 'nonconst_defs': nonconst,
+                   'neg': neg}
     body._threaded = red
+    body._threaded_info = info
     return red
 
 
@@ -665,14 +701,19 @@ def normalize_cmp(op, a, b, is_float=False):
     return '%s %s %d' % (lhs, _SYM[op], c)
 
 
-def atom_of(expr, body=None):
-    """Boolean atom (string, polarity-normalised) for a bool-typed origin tree; returns (text, negated)."""
+def atom_of(expr, body=None, drop_const_phi=False):
+    """Boolean atom (string, polarity-normalised) for a bool-typed origin tree; returns (text, negated).
+    drop_const_phi: the constant alternatives of a phi were jump-threaded away, only the computed ones remain."""
     t = expr[0]
+    if t == 'phi' and drop_const_phi:
+        rest = [a for a in expr[1] if not (a[0] == 'const' and a[2] in (0, 1))]
+        if len(rest) == 1:
+            return atom_of(rest[0], body, drop_const_phi)
     if t == 'un' and expr[1] == 'Not':
-        s, n = atom_of(expr[2], body)
+        s, n = atom_of(expr[2], body, drop_const_phi)
         return s, not n
     if t == 'call' and short(expr[1]) in ('__private::not',) or (t == 'call' and expr[1].endswith('anyhow::__private::not')):
-        s, n = atom_of(expr[2][0], body)
+        s, n = atom_of(expr[2][0], body, drop_const_phi)
         return s, not n
     if t == 'bin' and expr[1] in _SYM:
         fl = _looks_float(expr[2]) or _looks_float(expr[3])
@@ -715,7 +756,10 @@ def switch_edge_predicates(body, bb, origin=None):
     e = o.of_operand(t['on'])
     out = []
     if t.get('onty') == 'bool':
-        atom, neg = atom_of(e, body)
+        threaded_successors(body)
+        ti = getattr(body, '_threaded_info', {}).get(bb)
+        dcp = bool(ti and len(ti['threaded']) == ti['const_defs'])
+        atom, neg = atom_of(e, body, dcp)
         for v, tg in t['tg']:
             truth = (v != 0)
             out.append((tg, ('!' if (truth == neg) else '') + atom))
